@@ -34,7 +34,7 @@ POOL = {
     "su": ["electron", "ammonia", "2 neutron", "egg"],
     "cv": ["2 km -> m", "1 hour -> s", "3 ft -> inch", "10 -> hex"],
     "ul": ["1000 s -> minute, s", "2.5 hour -> hour, minute", "100 inch -> ft, inch"],
-    "df": ["foot", "kilogram", "speed", "parsec"],
+    "df": ["foot", "kilogram", "energy", "parsec"],
     "uf": ["units for bit", "units for kat", "units for A"],
     "fz": ["factorize velocity", "factorize m", "factorize acceleration"],
     "se": ["search watr", "search zz", "search fot"],
@@ -65,43 +65,20 @@ def obs_kind(res):
     return MODEL_KIND.get(t, str(t))
 
 
-def job_for(text, first, real_reset, st):
+def job_for(text, first, st):
     j = {"qs": text, "slim": True}
     if first:
-        j["reset" if real_reset else "clear_ans"] = True
+        j["clear_ans"] = True
     if st:
         j["st"] = True
     return j
-
-
-def run_shard(idx, save, hists, texts, reset_every, sample_every, tag):
-    """hists: list of (global index, case). Returns list of (h, case, [results])"""
-    jobs = []
-    # warm-up job: digest of the fresh context (not part of any history)
-    jobs.append({"qs": "1", "slim": True, "reset": True, "st": True})
-    for n, (h, case) in enumerate(hists):
-        real = n % reset_every == 0
-        last_before_reset = (n + 1) % reset_every == 0 or n == len(hists) - 1
-        sampled = n % sample_every == 0
-        steps = case["steps"]
-        for i, s in enumerate(steps):
-            st = sampled or (last_before_reset and i == len(steps) - 1)
-            jobs.append(job_for(texts[s["q"]], i == 0, real, st))
-    res = evalkit.run_eval(jobs, ctx="bundled", timeout_ms=20000, shards=1, tag="%s-%d" % (tag, idx), ans=save)
-    out = []
-    k = 1
-    for h, case in hists:
-        n = len(case["steps"])
-        out.append((h, case, res[k:k + n]))
-        k += n
-    return res[0], out
 
 
 def step_line(h, i, qid, r):
     e = {"ev": "step", "h": h, "i": i, "q": qid, "plain": bool(r.get("plain", True)), "kind": obs_kind(r),
          "raw": r.get("raw_d") or "none", "rd": r.get("rd") or "crash",
          "ans": (r.get("ans_d") or "none") if "crash" not in r else "lost",
-         "db": "", "tmp": "", "settings": [False, False]}
+         "db": "", "tmp": "", "settings": [False, False], "clock": bool(r.get("clock_ok", "crash" in r))}
     st = r.get("st")
     if st:
         e["db"] = st.get("db") or "unreadable"
@@ -110,16 +87,85 @@ def step_line(h, i, qid, r):
     return e
 
 
-def shard_trace(save, warm, recs):
-    """trace lines of one shard + per line the history it belongs to"""
-    lines = []
-    for h, case, res in recs:
-        lines.append({"ev": "reset", "h": h, "save": save, "db": ""})
-        for i, (s, r) in enumerate(zip(case["steps"], res)):
-            lines.append(step_line(h, i + 1, s["q"], r))
-    st = warm.get("st") or {}
-    lines[0]["db"] = st.get("db") or "unreadable"
-    return lines
+class ShardResult:
+    def __init__(self):
+        self.path = None
+        self.nlines = 0
+        self.pairs = {}          # (qid, a0) -> first result seen
+        self.ansval = {}         # ans digest -> number observation
+        self.mismatch = []       # (h, step, case, result): the model's prediction of `ans` differs
+        self.kinddiff = []       # (h, step, model kind, code kind)
+        self.crashes = []
+        self.readers = set()     # histories (qid tuples) in which a stored answer is read back
+        self.steps = 0
+        self.hist = 0
+        self.digests = 0
+        self.sample = None
+
+
+def run_shard(idx, save, hists, texts, batch, sample_every, tag):
+    """hists: list of (global index, case) with case = (save, qids, kinds, ans). One rv-eval process (one
+    long-lived context) per batch of histories; the trace lines go to a file, only summaries are kept."""
+    out = ShardResult()
+    out.path = vlib.workfile("%s-%d-trace.ndjson" % (tag, idx))
+    with open(out.path, "w") as f:
+        for b0 in range(0, len(hists), batch):
+            part = hists[b0:b0 + batch]
+            # warm-up job: a fresh context and its digest (not part of any history)
+            jobs = [{"qs": "1", "slim": True, "reset": True, "st": True}]
+            for n, (h, case) in enumerate(part):
+                sampled = (b0 + n) % sample_every == 0
+                qids = case[1]
+                for i, q in enumerate(qids):
+                    jobs.append(job_for(texts[q], i == 0, sampled or (n == len(part) - 1 and i == len(qids) - 1)))
+            res = evalkit.run_eval(jobs, ctx="bundled", timeout_ms=20000, shards=1, tag="%s-%d" % (tag, idx), ans=save)
+            warm = res[0].get("st") or {}
+            k = 1
+            for n, (h, case) in enumerate(part):
+                qids, kinds, src = case[1], case[2], case[3]
+                rs = res[k:k + len(qids)]
+                k += len(qids)
+                line = {"ev": "reset", "h": h, "save": save, "db": (warm.get("db") or "unreadable") if n == 0 else ""}
+                f.write(json.dumps(line, separators=(",", ":")) + "\n")
+                out.nlines += 1
+                out.hist += 1
+                a0 = "none"
+                raws = [r.get("raw_d") for r in rs]
+                bad = False
+                used = False
+                for i, (q, r) in enumerate(zip(qids, rs)):
+                    e = step_line(h, i + 1, q, r)
+                    f.write(json.dumps(e, separators=(",", ":")) + "\n")
+                    out.nlines += 1
+                    out.steps += 1
+                    if e["db"]:
+                        out.digests += 1
+                    if "crash" in r:
+                        out.crashes.append((h, i + 1, case, {x: r.get(x) for x in ("crash", "msg", "signal")}))
+                        a0 = "none"
+                        bad = True
+                        continue
+                    if (q, a0) not in out.pairs:
+                        out.pairs[(q, a0)] = r.get("rd")
+                    if r.get("ans_d") and r["ans_d"] not in out.ansval and r.get("ans") is not None:
+                        out.ansval[r["ans_d"]] = r["ans"]
+                    if not bad:
+                        if kinds[i] != e["kind"] and len(out.kinddiff) < 5:
+                            out.kinddiff.append((h, i + 1, kinds[i], e["kind"], case))
+                        want = "none" if src[i] == 0 else (raws[src[i] - 1] or "missing")
+                        got = r.get("ans_d") or "none"
+                        if want != got:
+                            if len(out.mismatch) < 50:
+                                out.mismatch.append((h, i + 1, case, {"ans_after": r.get("ans"), "reply_kind": e["kind"]}))
+                            bad = True
+                        if q in ("a1", "a2", "a3") and a0 != "none":
+                            used = True
+                    a0 = r.get("ans_d") or "none"
+                if used and save:
+                    out.readers.add(qids)
+                if out.sample is None and n == 1:
+                    out.sample = [step_line(h, i + 1, q, r) for i, (q, r) in enumerate(zip(qids, rs))]
+    return out
 
 
 def run_parallel(jobs, shards, tag, save):
@@ -187,6 +233,46 @@ def validate_lines(run, lines, label, describe, max_rej=3):
     return rej
 
 
+def validate_file(run, path, label, describe, max_rej=3):
+    """Trace_Session on a trace file; only when it is rejected are the lines loaded to resume after the
+    rejected history."""
+    r = vlib.tlc("Trace_Session", "Trace_Session", workers=1, timeout=6000, env={"TRACE": path}, xmx="8g", deque=True, tag="c15v")
+    if getattr(r, "timed_out", False):
+        raise vlib.ToolError("trace validation timed out (%s)" % label)
+    run.cov["states"] += r.distinct
+    run.cov["transitions"] += r.generated
+    if vlib.tagged_raw(r, "TRACE_OK") and r.ok:
+        return 0
+    rj = vlib.tagged_raw(r, "TRACE_REJECT")
+    if not rj:
+        log(r.stdout[-3000:])
+        raise vlib.ToolError("trace validation produced no verdict (%s)" % label)
+    lines = vlib.read_ndjson(path)
+    idx = int(rj[0].split(",")[0])
+    describe(lines[idx - 1], why_of(r, idx))
+    if lines[idx - 1]["ev"] == "fresh":
+        rest = lines[idx:]
+    else:
+        nxt = next((j for j in range(idx, len(lines)) if lines[j]["ev"] in ("reset", "fresh")), None)
+        rest = lines[nxt:] if nxt is not None else []
+    if not rest or max_rej <= 1:
+        return 1
+    head = dict(lines[0], h=-1)
+    if not (rest[0]["ev"] == "reset" and rest[0].get("db")):
+        rest = [head] + rest
+    return 1 + validate_lines(run, rest, label, describe, max_rej=max_rej - 1)
+
+
+def parse_replay(r):
+    """REPLAY lines -> compact cases (save, qids, kinds, ans sources)"""
+    cases = []
+    for ln in r.stdout.splitlines():
+        if ln.startswith('"REPLAY '):
+            o = json.loads(vlib._unquote_tla(ln)[7:])
+            cases.append((bool(o["s"]), tuple(o["q"]), tuple(o["k"]), tuple(o["a"])))
+    return cases
+
+
 def design(run, thorough):
     cfg = "MC_Session5" if thorough else "MC_Session4"
     r = vlib.tlc("MC_Session", cfg, workers=1, timeout=3000, coverage=True, tag="c15g", xmx="10g")   # 1 worker: printed lines must not interleave
@@ -197,19 +283,23 @@ def design(run, thorough):
     run.add_tlc(r, cfg)
     if r.coverage.get("Do", (0, 0))[1] == 0:
         raise vlib.ToolError("vacuity gate: action Do never taken in %s" % cfg)
-    cases = vlib.tagged_json(r, "REPLAY")
+    cases = parse_replay(r)
+    r.stdout = ""
     if not cases:
         raise vlib.ToolError("generator printed no histories")
-    qs = set(s["q"] for c in cases for s in c["steps"])
-    kinds = set(s["kind"] for c in cases for s in c["steps"])
+    n = 5 if thorough else 4
+    if len(cases) != 2 * len(POOL) ** n:
+        raise vlib.ToolError("generator printed %d histories, expected %d" % (len(cases), 2 * len(POOL) ** n))
+    qs = set(q for c in cases for q in c[1])
+    kinds = set(k for c in cases for k in c[2])
     if qs != set(POOL) or not {"number", "duration", "error", "conversion", "def"} <= kinds:
         raise vlib.ToolError("vacuity gate: generated histories miss query classes: %s %s" % (sorted(qs), sorted(kinds)))
-    if not any(s["ans"] not in (0, i + 1) for c in cases for i, s in enumerate(c["steps"])):
+    if not any(a not in (0, i + 1) for c in cases for i, a in enumerate(c[3])):
         raise vlib.ToolError("vacuity gate: no history keeps an older answer")
     # the model can see the defect classes: faulty step functions must violate AnsRule
     for fault in ("conv", "err", "off"):
         rb = vlib.tlc("MC_Session", "MC_Session_bad_%s" % fault, workers=2, timeout=300, tag="c15b")
-        if rb.ok or "AnsRule" not in rb.stdout and "OffNeverSet" not in rb.stdout:
+        if rb.ok or ("AnsRule" not in rb.stdout and "OffNeverSet" not in rb.stdout):
             log(rb.stdout[-2000:])
             raise vlib.ToolError("sanity: faulty model '%s' should violate AnsRule / OffNeverSet" % fault)
     run.note("sanity_faulty_models", "AnsRule / OffNeverSet violated by the three faulty step functions, as expected")
@@ -237,19 +327,19 @@ def run(tier, seed):
     t0 = time.time()
 
     shards = 12 if thorough else 8
-    reset_every = 20000 if thorough else 3000
-    sample_every = 8000 if thorough else 1200
+    batch = 12000 if thorough else 3000          # histories per long-lived context
+    sample_every = 6000 if thorough else 1200    # every step of these histories gets the state digests
     violations = []
 
-    all_recs = {}
-    ansval = {}                      # ans digest -> full number observation (for presets)
-    pairs = {True: {}, False: {}}    # save -> {(qid, a0): (rd, kind, raw, ans_after)} first observation
-    traces = {}
+    def hist_texts(case):
+        return [texts[q] for q in case[1]]
+
     # flag off: `ans` never changes, so every step is answered as on a fresh context; the quick tier replays
     # every 8th of these histories (offset by the seed), the thorough tier every 2nd
     off_stride = 2 if thorough else 8
+    results = {}
     for save in (True, False):
-        mine = [(h, c) for h, c in enumerate(cases) if c["save"] == save]
+        mine = [(h, c) for h, c in enumerate(cases) if c[0] == save]
         if not save:
             mine = mine[seed % off_stride::off_stride]
         n = len(mine)
@@ -257,62 +347,41 @@ def run(tier, seed):
 
         def one(i, save=save, mine=mine, bounds=bounds):
             lo, hi = bounds[i]
-            return run_shard(i, save, mine[lo:hi], texts, reset_every, sample_every, "c15%s" % ("on" if save else "off"))
+            return run_shard(i, save, mine[lo:hi], texts, batch, sample_every, "c15%s" % ("on" if save else "off"))
 
         with cf.ThreadPoolExecutor(max_workers=shards) as ex:
-            parts = list(ex.map(one, range(shards)))
-        for i, (warm, recs) in enumerate(parts):
-            all_recs[(save, i)] = recs
-            traces[(save, i)] = shard_trace(save, warm, recs)
-            for h, case, res in recs:
-                a0 = "none"
-                for s, r in zip(case["steps"], res):
-                    run.count()
-                    if "crash" in r:
-                        a0 = "none"
-                        continue
-                    pairs[save].setdefault((s["q"], a0), r)
-                    if r.get("ans_d") and r["ans_d"] not in ansval and r.get("ans") is not None:
-                        ansval[r["ans_d"]] = r["ans"]
-                    a0 = r.get("ans_d") or "none"
-
-    log("[C15] replayed in %.1fs" % (time.time() - t0))
+            for i, sr in enumerate(ex.map(one, range(shards))):
+                results[(save, i)] = sr
+        del mine
+    nsteps = sum(sr.steps for sr in results.values())
+    run.count(nsteps)
+    log("[C15] replayed %d steps in %.1fs" % (nsteps, time.time() - t0))
     t0 = time.time()
+
     # ---- G: the model's prediction of where `ans` comes from, against the observation
-    nread = 0
-    for (save, i), recs in all_recs.items():
-        for h, case, res in recs:
-            raws = [r.get("raw_d") for r in res]
-            used = False
-            for k, (s, r) in enumerate(zip(case["steps"], res)):
-                if "crash" in r:
-                    violations.append(({"engine": "session-replay", "kind": "crash", "save": save, "history": [texts[x["q"]] for x in case["steps"]],
-                                        "step": k + 1}, "a reply", r))
-                    break
-                want = "none" if s["ans"] == 0 else (raws[s["ans"] - 1] or "missing")
-                got = r.get("ans_d") or "none"
-                if s["kind"] != obs_kind(r):
-                    run.drift_note("MC_Session", "reply kind of %r after %r: model %s, code %s" % (
-                        texts[s["q"]], [texts[x["q"]] for x in case["steps"][:k]], s["kind"], obs_kind(r)))
-                if want != got:
-                    violations.append(({"engine": "session-replay", "kind": "ans", "save": save,
-                                        "history": [texts[x["q"]] for x in case["steps"]], "qids": [x["q"] for x in case["steps"]], "step": k + 1,
-                                        "expected_from_step": s["ans"]},
-                                       "previous_result after step %d = %s" % (k + 1, "none" if s["ans"] == 0 else "raw value of the reply of step %d" % s["ans"]),
-                                       {"ans_after": r.get("ans"), "reply_kind": obs_kind(r)}))
-                    break
-                if s["q"] in ("a1", "a2", "a3") and k > 0 and case["steps"][k - 1]["ans"] != 0:
-                    used = True
-            if used and save:
-                run.nontrivial(tuple(x["q"] for x in case["steps"]))
-                nread += 1
-    if nread == 0:
+    ansval = {}
+    for (save, i), sr in results.items():
+        ansval.update(sr.ansval)
+        for h, step, case, r in sr.crashes:
+            violations.append(({"engine": "session-replay", "kind": "crash", "save": save, "history": hist_texts(case), "qids": list(case[1]), "step": step},
+                               "a reply", r))
+        for h, step, mk, ck, case in sr.kinddiff:
+            run.drift_note("MC_Session", "reply kind of %r after %r: model %s, code %s" % (texts[case[1][step - 1]], hist_texts(case)[:step - 1], mk, ck))
+        for h, step, case, obs in sr.mismatch:
+            src = case[3][step - 1]
+            violations.append(({"engine": "session-replay", "kind": "ans", "save": save, "history": hist_texts(case), "qids": list(case[1]),
+                                "step": step, "expected_from_step": src},
+                               "previous_result after step %d = %s" % (step, "none" if src == 0 else "raw value of the reply of step %d" % src), obs))
+        if save:
+            for key in sr.readers:
+                run.nontrivial(key)
+    if not any(sr.readers for sr in results.values()):
         raise vlib.ToolError("vacuity gate: no replayed history reads a stored answer back")
 
     # ---- fresh contexts: every distinct (query, previous answer) again, previous_result preset
     fresh_lines = {True: [], False: []}
     for save in (True, False):
-        plist = sorted(pairs[save])
+        plist = sorted(set(p for (sv, i), sr in results.items() if sv == save for p in sr.pairs))
         missing = [p for p in plist if p[1] != "none" and p[1] not in ansval]
         if missing:
             raise vlib.ToolError("no value recorded for previous answer %s" % missing[0][1])
@@ -324,26 +393,21 @@ def run(tier, seed):
             e["a0"] = a0
             fresh_lines[save].append(e)
         run.count(len(fj))
-    run.note("distinct_query_answer_pairs", {"flag_on": len(pairs[True]), "flag_off": len(pairs[False])})
-
+        run.note("distinct_query_answer_pairs_flag_%s" % ("on" if save else "off"), len(plist))
     log("[C15] %d + %d fresh-context evaluations, %.1fs" % (len(fresh_lines[True]), len(fresh_lines[False]), time.time() - t0))
     t0 = time.time()
+
     # ---- V: trace validation (per shard: its own lines, then the fresh lines for the pairs it saw)
     def describe_for(save):
         def describe(bad, why):
-            hist = None
-            for (sv, i), recs in all_recs.items():
-                if sv != save:
-                    continue
-                for h, case, res in recs:
-                    if h == bad.get("h"):
-                        hist = case
+            case = cases[bad["h"]] if isinstance(bad.get("h"), int) and 0 <= bad["h"] < len(cases) else None
             violations.append(({"engine": "session-trace", "kind": why, "save": save, "line": {k: v for k, v in bad.items() if k != "tmp"},
                                 "query": texts.get(bad.get("q")),
-                                "history": [texts[x["q"]] for x in hist["steps"]] if hist else None,
-                                "qids": [x["q"] for x in hist["steps"]] if hist else None, "step": bad.get("i")},
+                                "history": hist_texts(case) if case else None,
+                                "qids": list(case[1]) if case else [bad.get("q")], "step": bad.get("i") or 1},
                                {"ansrule": "previous_result afterwards = IF flag and the reply is a successful numeric result of a plain expression THEN its raw value ELSE unchanged",
                                 "dbconst": "registry digest, load-time scratch names and settings unchanged",
+                                "clock": "ctx.now = the time rink_core::eval set at the start of the call",
                                 "purity": "the same reply digest as the earlier evaluation of the same query with the same previous answer",
                                 "fresh": "the same reply digest as a fresh context with previous_result preset",
                                 "fresh-ansrule": "AnsRule on the fresh context", "fresh-db": "fresh context: same registry digest"}.get(why, why),
@@ -352,44 +416,40 @@ def run(tier, seed):
 
     def val(key):
         save, i = key
-        lines = traces[key]
-        seen = set()
-        a0 = "none"
-        for e in lines:
-            if e["ev"] == "reset":
-                a0 = "none"
-            else:
-                seen.add((e["q"], a0))
-                a0 = e["ans"]
-        extra = [e for e in fresh_lines[save] if (e["q"], e["a0"]) in seen]
-        return validate_lines(run, lines + extra, "%s%d" % ("on" if save else "off", i), describe_for(save))
+        sr = results[key]
+        extra = [e for e in fresh_lines[save] if (e["q"], e["a0"]) in sr.pairs]
+        with open(sr.path, "a") as f:
+            for e in extra:
+                f.write(json.dumps(e, separators=(",", ":")) + "\n")
+        return validate_file(run, sr.path, "%s%d" % ("on" if save else "off", i), describe_for(save))
 
     with cf.ThreadPoolExecutor(max_workers=shards) as ex:
-        rejs = list(ex.map(val, sorted(traces)))
+        rejs = list(ex.map(val, sorted(results)))
     log("[C15] traces validated in %.1fs (%d rejections)" % (time.time() - t0, sum(rejs)))
-    nh = sum(len(r) for r in all_recs.values())
+    nh = sum(sr.hist for sr in results.values())
     run.traces(nh)
     run.note("histories_replayed", nh)
-    run.note("state_digests_checked", sum(1 for t in traces.values() for e in t if e.get("db")) + sum(len(v) for v in fresh_lines.values()))
-    k0 = sorted(traces)[0]
-    run.sample({"leg": "G", "history": [texts[s["q"]] for s in cases[len(cases) // 3]["steps"]], "model": cases[len(cases) // 3]})
-    run.sample({"leg": "V", "lines": traces[k0][1:4]})
+    run.note("state_digests_checked", sum(sr.digests for sr in results.values()) + sum(len(v) for v in fresh_lines.values()))
+    mid = cases[len(cases) // 3]
+    run.sample({"leg": "G", "flag": mid[0], "history": hist_texts(mid), "model_kinds": mid[2], "model_ans_from_step": mid[3]})
+    run.sample({"leg": "V", "lines": [{k: v for k, v in e.items() if k != "tmp"} for e in (results[(True, 0)].sample or [])]})
     if fresh_lines[True]:
         run.sample({"leg": "fresh", "line": {k: v for k, v in fresh_lines[True][len(fresh_lines[True]) // 2].items() if k != "tmp"}})
 
-    # report (deduplicated by clause + failing query + previous kind)
+    # report (deduplicated by leg + clause + flag + failing query)
     seen_keys = set()
     for case, allows, observed in violations:
         qids = case.get("qids") or [None]
         step = case.get("step") or 1
-        key = (case.get("engine"), case.get("kind"), case.get("save"), qids[min(step, len(qids)) - 1] if step else case.get("query"))
+        key = (case.get("engine"), case.get("kind"), case.get("save"), qids[min(step, len(qids)) - 1])
         if key in seen_keys:
             continue
         seen_keys.add(key)
         run.violation(case, allows, observed, case.get("engine"))
 
     # ---- the binding is not vacuous: corrupted traces must be rejected
-    base = [e for e in traces[(True, 0)][:400]]
+    base = vlib.read_ndjson(results[(True, 0)].path)[:400]
+    base = [e for e in base if e["ev"] != "fresh"]
     for what in ("ans", "db", "rd"):
         bad = [dict(e) for e in base]
         if what == "ans":
